@@ -33,7 +33,7 @@ impl ProfibusPhy for StPhy {
         F: FnOnce(&mut [u8]) -> (usize, R),
     {
         assert!(!self.transmitting, "transmit while transmitting");
-        let mut buf = [0u8; 256];
+        let mut buf = [0xA5u8; 256]; // a dirty transmit buffer (real PHYs reuse theirs)
         let (n, r) = f(&mut buf);
         if n > 0 {
             assert!(self.tx.is_none(), "second transmission in one poll");
